@@ -58,7 +58,10 @@ LEVEL.update({'C09': 'fault_enumeration', 'C13': 'fault_enumeration', 'C14': 'fa
 RULES = {
     'default': ('executions = seeded scenario instances (2-8 thread/coroutine actors, <= ~300 API calls) run on the real runtime: one dry run per '
                 'instance, then one execution per (reached hook site, k-th hit <= K) that stalls that hit for 3 ms while everything else runs to '
-                'quiescence, plus random multi-stall plans; on 1/2/4 workers. An execution is non-trivial if its planned stall was actually hit or '
+                'quiescence (the first K hits and K sampled later hits), plus random 2-4-entry plans and "overtake" plans (two consecutive hits of one '
+                'site, the earlier held longer); general shards over every reached site, directed shards over the hook windows the property is '
+                'anchored in, and no-hook stress shards (10^3-10^5 tight rounds per execution, hooks uninstalled because their atomics act as '
+                'fences); on 1/2/4 workers (16 in the thorough tier), every third shard with workers pinned to cores. An execution is non-trivial if its planned stall was actually hit or '
                 'at least two OS threads alternated in its hook trace; distinct = distinct hash of the (hook site, normalised OS thread) sequence '
                 'of the execution (idle-loop sites excluded). Every execution is judged by the scenario oracle over its API-boundary event log and '
                 'by the quiescence oracle (stranded = no event, no hook hit, no stall pending, every other OS thread asleep, with open calls).'),
